@@ -34,6 +34,7 @@ RULE = (
     "other than CONNECTED."
 )
 ASSUMPTIONS = [
+    "with reconnect_in_on_stop the stop callback itself calls start_connection before its first await (what a reconnect manager does after an unexpected disconnect): the session is over by definition, so the attempt must be accepted",
     "model state changes only on call outcomes and injected events: start ok -> STARTED, finish ok -> CONNECTED, any failed phase / returned disconnect() / delivered device ending -> IDLE; results of concurrent calls are applied in completion order",
     "when the device closes the socket between the two phases the attempt is still 'in progress' from the caller's side: start_connection is then not asserted either way, finish_connection must fail with an APIConnectionError and disconnect() must free the client",
     "probes run only at settled points (3/64 s after the step's calls completed)",
@@ -60,6 +61,7 @@ def run_case(case: dict) -> CaseResult:
     names = [n for n in sorted(R) if n not in apisurface.LOCAL_ONLY]
     model = {"s": "IDLE", "dead_started": False}
     stops: list = []
+    closing_down = [False]
     classes: set[str] = set()
     stats = {"sessions": 0, "probes": 0, "skipped": 0, "rot": int(case.get("rot", 0))}
     viol = res.violations
@@ -67,6 +69,19 @@ def run_case(case: dict) -> CaseResult:
     async def on_stop(expected):
         stops.append(expected)
         env.log("on_stop", arg=expected)
+        if case.get("reconnect_in_on_stop") and not closing_down[0]:
+            # the session has ended: a new attempt made right here (before the handler's first await) must be accepted
+            classes.add("reconnect_from_on_stop")
+            n_tcp = len(env.tcp_calls)
+            env.tcp_script = [("refuse", D)]
+            try:
+                await cli.start_connection(on_stop)
+                viol.append(V("c19:harness:start-succeeded-on-refused-tcp", "in on_stop"))
+            except APIConnectionError as e:
+                if len(env.tcp_calls) == n_tcp:
+                    viol.append(V("c19:wedged:start-refused-in-on_stop", f"the stop callback ran (session over) but start_connection raised {e!r} without attempting to connect"))
+            except BaseException as e:  # noqa: BLE001
+                viol.append(V(f"c19:start-in-on_stop:raised:{type(e).__name__}", repr(e)[:200]))
 
     def set_device(beh: str | None):
         dev.auto = {1, 3, 5, 7, 9, 11}
@@ -329,6 +344,7 @@ def run_case(case: dict) -> CaseResult:
                 await probe_idle_accepts(i)
                 await settle()
         env.log("history_done")
+        closing_down[0] = True
         await cli.disconnect(force=True)
 
     env.loop.sim_at(0, lambda: env.spawn("main", main()))
@@ -398,7 +414,8 @@ def _case(draw, tier):
             else:
                 steps.append({"op": "dev", "what": draw(st.sampled_from(["eof", "reset", "garbage", "discreq", "pingtimeout", "resp+discreq", "resp+garbage", "resp+eof"]))})
             s = "IDLE"
-    return {"noise": draw(st.integers(0, 3)) == 0, "keepalive": 2.0, "rot": draw(st.integers(0, 50)), "password": draw(st.sampled_from([None, "pw"])), "steps": steps}
+    return {"noise": draw(st.integers(0, 3)) == 0, "keepalive": 2.0, "rot": draw(st.integers(0, 50)), "password": draw(st.sampled_from([None, "pw"])), "steps": steps,
+            "reconnect_in_on_stop": draw(st.integers(0, 3)) == 0}
 
 
 def strategy(tier):
@@ -431,6 +448,10 @@ def enumerated(tier):
             yield {"noise": noise, "rot": 23, "steps": [{"op": "start", "tcp": "ok", "interfere": None}, {"op": "finish", "dev": devb, "login": True, "interfere": None}] + second}
         for tcp in ("refuse", "hang"):
             yield {"noise": noise, "rot": 30, "steps": [{"op": "start", "tcp": tcp, "interfere": None}] + second}
+        for what in ("eof", "reset", "garbage", "discreq", "pingtimeout", "resp+discreq"):
+            yield {"noise": noise, "rot": 40, "reconnect_in_on_stop": True, "steps": [second[0], {"op": "dev", "what": what}] + second}
+        for force in (False, True):
+            yield {"noise": noise, "rot": 41, "reconnect_in_on_stop": True, "steps": [second[0], {"op": "disconnect", "force": force}] + second}
         for what in ("eof", "reset", "garbage", "discreq", "pingtimeout", "resp+discreq", "resp+garbage", "resp+eof"):
             yield {"noise": noise, "rot": 33, "steps": [second[0], {"op": "dev", "what": what}] + second}
             if what in ("eof", "reset", "garbage"):
